@@ -227,7 +227,74 @@ def check_dispatch(R, prog):
 
 
 # ------------------------------------------------------------------ names aligned
+def semantic_all_labels(prog):
+    """fold VariablesManager.all_variable_labels over stand-in group lists (groups with gaps before / between / after them, an empty
+    group, a singleton group): the i-th name produced must be the name of variable i -- the group's own label inside a group, the
+    default name outside"""
+    import types
+    from ..fold import Folder, Raised
+    from ..ql import Unknown
+    fi = prog.func(VARS, "VariablesManager.all_variable_labels")
+
+    class FakeSingleton:
+        def __init__(self, first, name):
+            self.first, self.name = first, name
+
+        def __len__(self):
+            return 1
+
+        def __getitem__(self, i):
+            return [self.first][i]
+
+        def label(self):
+            return [self.name]
+
+    class FakeGroup:
+        def __init__(self, first, n, stem):
+            self.first, self.n, self.stem = first, n, stem
+
+        def __len__(self):
+            return self.n
+
+        def __getitem__(self, i):
+            return list(range(self.first, self.first + self.n))[i]
+
+        def label(self):
+            return ["%s%d" % (self.stem, i) for i in range(1, self.n + 1)]
+    cases = [
+        ([], 0), ([], 3),
+        ([FakeGroup(1, 2, "a")], 2), ([FakeGroup(3, 2, "a")], 6),
+        ([FakeGroup(2, 2, "a"), FakeSingleton(6, "S"), FakeGroup(7, 0, "e"), FakeGroup(8, 1, "b")], 10),
+        ([FakeSingleton(1, "S"), FakeSingleton(4, "T")], 4),
+    ]
+    for groups, n in cases:
+        want = ["x%d" % i for i in range(1, n + 1)]
+        for g in groups:
+            for k, lab in enumerate(g.label()[:len(g)]):
+                want[g.first - 1 + k] = lab
+        selfobj = types.SimpleNamespace(_groups=list(groups), _formula=types.SimpleNamespace(number_of_variables=lambda n=n: n))
+        f = Folder(env={})
+        f.globals = {"SingletonVariableGroup": FakeSingleton}
+        try:
+            got = f.call_function(fi.node, [selfobj], {})
+        except Raised as r:
+            return False, "all_variable_labels raises %s for groups at %s in a formula with %d variables" % (r.cls, [(g.first, len(g)) for g in groups], n)
+        except Unknown as e:
+            return None, "cannot fold all_variable_labels: %s" % e
+        if list(got or []) != want:
+            return False, ("for groups (first id, size) %s in a formula with %d variables the names are %s; variable i must be named by its group or "
+                           "x<i>: %s" % ([(g.first, len(g)) for g in groups], n, list(got or []), want))
+    return True, "%d group layouts folded (gaps before, between and after groups, an empty group, singletons)" % len(cases)
+
+
 def check_gapfill(R, prog):
+    from ._shared import with_semantics
+    fi = prog.func(VARS, "VariablesManager.all_variable_labels")
+    with_semantics(R, P, lambda T: _shape_check_gapfill(T, prog), semantic_all_labels(prog), "all_variable_labels names variable i at position i", fi,
+                   rule="LABEL-GAPFILL")
+
+
+def _shape_check_gapfill(R, prog):
     fi = prog.func(VARS, "VariablesManager.all_variable_labels")
     cfg = CFG(fi.node)
     stmts = stmts_in(fi.node)
